@@ -1507,12 +1507,38 @@ func isIntKeyedIfaceMap(t types.Type) bool {
 func ruleDefaultWhenEmpty(c *Ctx, r *Rep) {
 	pv := c.newProv()
 	n := 0
+	// the name tables may be functions func(string) (T, bool): a call of one is a lookup like one in a map
+	tableFns := map[*ssa.Function]bool{}
+	for _, t := range []string{"KeyAlgorithm", "SignatureAlgorithm"} {
+		if gs := c.globalsOfType(func(ty types.Type) bool { return isMapOf(ty, isString, c.isModNamed(t)) }); len(gs) == 0 {
+			if _, at, why := nameTableByFolding(c, t); why == "" {
+				if f, ok := at.(*ssa.Function); ok && isBoolType(f.Signature.Results().At(1).Type()) {
+					tableFns[f] = true
+				}
+			}
+		}
+	}
+	type lookupSite struct {
+		Index ssa.Value
+		refs  *[]ssa.Instruction
+		pos   token.Pos
+	}
 	for _, fn := range c.Funcs {
 		k := 0
 		for _, b := range fn.Blocks {
 			for _, ins := range b.Instrs {
-				lk, ok := ins.(*ssa.Lookup)
-				if !ok || !lk.CommaOk || loadedGlobal(lk.X) == nil {
+				var lk *lookupSite
+				switch x := ins.(type) {
+				case *ssa.Lookup:
+					if x.CommaOk && loadedGlobal(x.X) != nil {
+						lk = &lookupSite{x.Index, x.Referrers(), x.Pos()}
+					}
+				case *ssa.Call:
+					if f := x.Call.StaticCallee(); f != nil && tableFns[f] && len(x.Call.Args) == 1 {
+						lk = &lookupSite{x.Call.Args[0], x.Referrers(), x.Pos()}
+					}
+				}
+				if lk == nil {
 					continue
 				}
 				if !isString(lk.Index.Type()) {
@@ -1543,7 +1569,7 @@ func ruleDefaultWhenEmpty(c *Ctx, r *Rep) {
 				}
 				// the exits that report the name as unknown: error returns behind `ok == false`
 				missExits := 0
-				for _, ref := range *lk.Referrers() {
+				for _, ref := range *lk.refs {
 					ex, isEx := ref.(*ssa.Extract)
 					if !isEx || ex.Index != 1 {
 						continue
@@ -1587,7 +1613,7 @@ func ruleDefaultWhenEmpty(c *Ctx, r *Rep) {
 						r.Check(okGuard, sprintf("unknown-only-when-given|%s|%s#%d", field, c.FuncKey(fn), k), c.Pos(ret.Pos()), "the error for an unknown "+field+" lies behind a test that the name is non-empty", found)
 					}
 				}
-				r.Check(missExits > 0, sprintf("unknown-is-error|%s|%s", named[strings.LastIndex(named, ".")+1:], c.FuncKey(fn)), c.Pos(lk.Pos()), "a name that is not in the table makes the function return an error (behind ok == false)", sprintf("%d such exits", missExits))
+				r.Check(missExits > 0, sprintf("unknown-is-error|%s|%s", named[strings.LastIndex(named, ".")+1:], c.FuncKey(fn)), c.Pos(lk.pos), "a name that is not in the table makes the function return an error (behind ok == false)", sprintf("%d such exits", missExits))
 			}
 		}
 	}
